@@ -22,8 +22,8 @@ TRUSTED = ["model: coq/Model/Meta.v (metadata frames with pandas' loc / iloc dis
 ASSUMPTIONS = ["labels (TsdFrame columns, TsGroup keys) are distinct; IntervalSet operands are canonical and carry the default 0..n-1 metadata index (both are what the constructors produce)",
                "TsGroup(dict in unsorted key order, metadata=list) attaching the list to the SORTED keys is outside the statement (it is about preservation after attachment)",
                "NumPy functions that permute columns (np.flip / np.roll / np.take on axis 1 keep labels and metadata in the old order) are not among the statement's operations; recorded as an observation",
-               "two C13 theorems are REFUTATIONS on the faithful model (boolean pd.Series key with a re-ordered index; merge_group of groups whose concatenated keys are not ascending): "
-               "their replays on /repo are the known findings of this property"]
+               "the model follows /repo as repaired (c7648fb: pandas keys of IntervalSet.__getitem__ positional; c0dc0a1: merge_group sorts the concatenated metadata and copies its "
+               "first operand's metadata); the pre-repair forms are kept as *_orig definitions with their refutation theorems"]
 
 U = 1953125  # 2^-9 s in ticks
 US = 1000
@@ -197,18 +197,18 @@ def run_iset_index(cx):
                 cx.viol(dict(kk, part="intervals"), "selected intervals are not the requested ones", inp, impl)
             if len(res.samples) < 2 and form == "list" and len(desc) == 3:
                 res.sample({"intervals": ivs, "key": desc, "result": impl})
-        # label discipline: pd.Index / integer pd.Series
+        # pd.Index / integer pd.Series keys (positional, negative integers wrap)
         subs = []
         for m in range(1, n + 1):
             subs += [list(p) for p in itertools.permutations(range(n), m)]
-        subs += [[-1, 0], [0, n], [1, 1]]
+        subs += [[-1, 0], [0, -1], [-n, -1], [0, n], [-n - 1], [1, 1]]
         for l in subs:
             for form, key in (("pd.Index", pd.Index(l)), ("pd.Series_int", pd.Series(l))):
                 inp = {"intervals": ivs, "form": form, "key": l}
                 res.count("iset_index_" + form)
                 res.case(("iset", gname, form, str(l)), nontrivial=True)
                 kk = {"op": "IntervalSet.__getitem__", "form": form}
-                valid = all(0 <= p < n for p in l)
+                valid = all(-n <= p < n for p in l)
                 try:
                     r = ep[key]
                     impl = canon_res(r)
@@ -221,7 +221,7 @@ def run_iset_index(cx):
                     continue
                 err = attach_err(r, ivs, "same")
                 if err == "nometa":
-                    if valid and strictly_inc(l):
+                    if valid and strictly_inc([p % n for p in l]):
                         cx.viol(dict(kk, part="lost"), "order-preserving selection lost its metadata", inp, impl)
                 elif err:
                     cx.viol(dict(kk, part="misattached"), err, inp, impl)
